@@ -457,3 +457,117 @@ fn k8c_overasking_advance_with_pending() {
     observe(&iov, &sh);
     std::mem::forget(iov);
 }
+
+/// K5q: consume, clear, reuse (small): sizes restart from the clear.
+#[kani::proof]
+#[kani::unwind(7)]
+fn k5q_clear_resets_accounting() {
+    let a: [u8; 3] = kani::any();
+    let c: [u8; 2] = kani::any();
+    let mut sh = Shadow::new();
+    let mut iov = OwningIovec::new();
+    push_copy(&mut iov, &mut sh, &a);
+    let k: usize = kani::any();
+    consume(&mut iov, &mut sh, k);
+    iov.clear();
+    sh.clear();
+    assert!(iov.is_empty());
+    assert_eq!(iov.total_size(), 0);
+    push_borrowed(&mut iov, &mut sh, &c);
+    observe(&iov, &sh);
+    kani::cover!(k >= 1, "bytes were consumed before the clear");
+    std::mem::forget(iov);
+}
+
+/// K6q: take() with a pending placeholder (small).
+#[kani::proof]
+#[kani::unwind(7)]
+fn k6q_take_moves_pending_placeholder() {
+    let a: [u8; 2] = kani::any();
+    let v: [u8; 1] = kani::any();
+    let mut sh = Shadow::new();
+    let mut iov = OwningIovec::new();
+    push_borrowed(&mut iov, &mut sh, &a);
+    let r = register(&mut iov, &mut sh, 0, 1);
+    let mut taken = iov.take();
+    assert!(iov.is_empty() && !iov.has_pending_backrefs());
+    assert!(iov.iovs().is_ok());
+    assert_eq!(iov.total_size(), 0);
+    observe(&taken, &sh);
+    backfill(&mut taken, &mut sh, 0, r, &v);
+    observe(&taken, &sh);
+    std::mem::forget(iov);
+    std::mem::forget(taken);
+}
+
+/// K7q: clone, drain the original completely, refill it: the clone still
+/// shows the bytes it was cloned with (small).
+#[kani::proof]
+#[kani::unwind(7)]
+fn k7q_clone_survives_drain_and_refill() {
+    let a: [u8; 3] = kani::any();
+    let c: [u8; 2] = kani::any();
+    let mut sh = Shadow::new();
+    let mut iov = OwningIovec::new();
+    push_copy(&mut iov, &mut sh, &a);
+    let cl = iov.clone();
+    let mut shc = Shadow::new();
+    shc.append(&a);
+    consume(&mut iov, &mut sh, 1);
+    assert!(iov.is_empty());
+    push_copy(&mut iov, &mut sh, &c);
+    observe(&cl, &shc);
+    observe(&iov, &sh);
+    std::mem::forget(iov);
+    std::mem::forget(cl);
+}
+
+/// K8q: a consumer that asks for more slices than are stable never gets the
+/// slice holding a pending placeholder (small).
+#[kani::proof]
+#[kani::unwind(7)]
+fn k8q_consume_clamped_to_stable_prefix() {
+    let a: [u8; 2] = kani::any();
+    let b: [u8; 1] = kani::any();
+    let v: [u8; 1] = kani::any();
+    let mut sh = Shadow::new();
+    let mut iov = OwningIovec::new();
+    push_borrowed(&mut iov, &mut sh, &a);
+    let r = register(&mut iov, &mut sh, 0, 1);
+    push_borrowed(&mut iov, &mut sh, &b);
+    let k: usize = kani::any();
+    consume(&mut iov, &mut sh, k);
+    observe(&iov, &sh);
+    assert!(sh.consumed <= 2);
+    backfill(&mut iov, &mut sh, 0, r, &v);
+    observe(&iov, &sh);
+    kani::cover!(k > 1 && sh.consumed == 2, "over-asking consume stopped at the placeholder");
+    std::mem::forget(iov);
+}
+
+/// K11q: real drops: after consuming a symbolic number of slices and dropping
+/// the iovec, the live chunk / byte counters are back where they started.
+#[kani::proof]
+#[kani::unwind(7)]
+fn k11q_drop_restores_counters() {
+    let chunks0 = ByteArena::num_live_chunks();
+    let bytes0 = ByteArena::num_live_bytes();
+    {
+        let a: [u8; 3] = kani::any();
+        let b: [u8; 3] = kani::any();
+        let mut sh = Shadow::new();
+        let mut iov = OwningIovec::new();
+        push_copy(&mut iov, &mut sh, &a);
+        push_copy(&mut iov, &mut sh, &b); // second 4-byte chunk
+        assert!(ByteArena::num_live_chunks() == chunks0 + 2);
+        let k: usize = kani::any();
+        consume(&mut iov, &mut sh, k);
+        if k >= 1 {
+            // the first chunk is only kept alive by the slice that was just consumed
+            assert!(ByteArena::num_live_chunks() == chunks0 + 1);
+        }
+        drop(iov);
+    }
+    assert_eq!(ByteArena::num_live_chunks(), chunks0);
+    assert_eq!(ByteArena::num_live_bytes(), bytes0);
+}
